@@ -16,14 +16,14 @@ func init() {
 }
 
 type c04Group struct {
-	g       *echo.Group
-	id      int
-	host    string
-	prefix  string
-	mws     []int // current middleware ids (inherited first)
-	own     []int // ids declared on this group itself
-	parent  int
-	useSeq  int // when this group last registered its catch-all routes (creation with middleware, or Use)
+	g      *echo.Group
+	id     int
+	host   string
+	prefix string
+	mws    []int // current middleware ids (inherited first)
+	own    []int // ids declared on this group itself
+	parent int
+	useSeq int // when this group last registered its catch-all routes (creation with middleware, or Use)
 }
 
 func genC04(rng *rand.Rand, n int, emit func(Case), dist map[string]int) {
@@ -147,6 +147,17 @@ func genC04(rng *rand.Rand, n int, emit func(Case), dist map[string]int) {
 			}
 			ops = append(ops, L(I(5), I(owner), S(method), S(path), I(h), I(herr), L(sxs...)))
 		}
+		mkSub := func(p *c04Group, nmw int) *c04Group {
+			prefix := []string{"/v1", "/x", "/sub", ""}[rng.Intn(4)]
+			fs, sxs, ids := mkMWs(nmw)
+			g := &c04Group{id: len(groups), host: p.host, prefix: p.prefix + prefix, mws: append(append([]int(nil), p.mws...), ids...), own: ids, parent: p.id}
+			g.g = p.g.Group(prefix, fs...)
+			useSeq++
+			g.useSeq = useSeq
+			groups = append(groups, g)
+			ops = append(ops, L(I(2), I(g.id), I(p.id), S(prefix), L(sxs...)))
+			return g
+		}
 		nops := 6 + rng.Intn(17)
 		for k := 0; k < nops; k++ {
 			switch r := rng.Intn(20); {
@@ -170,15 +181,26 @@ func genC04(rng *rand.Rand, n int, emit func(Case), dist map[string]int) {
 				groups = append(groups, g)
 				ops = append(ops, L(I(2), I(g.id), I(-1), S(prefix), L(sxs...)))
 			case r <= 7 && len(groups) > 0:
-				p := groups[rng.Intn(len(groups))]
-				prefix := []string{"/v1", "/x", "/sub", ""}[rng.Intn(4)]
-				fs, sxs, ids := mkMWs(rng.Intn(3))
-				g := &c04Group{id: len(groups), host: p.host, prefix: p.prefix + prefix, mws: append(append([]int(nil), p.mws...), ids...), own: ids, parent: p.id}
-				g.g = p.g.Group(prefix, fs...)
-				useSeq++
-				g.useSeq = useSeq
-				groups = append(groups, g)
-				ops = append(ops, L(I(2), I(g.id), I(p.id), S(prefix), L(sxs...)))
+				mkSub(groups[rng.Intn(len(groups))], rng.Intn(3))
+			case r == 12 && len(groups) > 0:
+				// several separate Use calls on a group (its middleware slice gets spare capacity), then TWO sibling
+				// sub-groups with middleware of their own, routes registered only afterwards
+				g := groups[rng.Intn(len(groups))]
+				for u := 1 + rng.Intn(5); u > 0; u-- {
+					fs, sxs, ids := mkMWs(1)
+					g.g.Use(fs...)
+					useSeq++
+					g.useSeq = useSeq
+					g.mws = append(g.mws, ids...)
+					g.own = append(g.own, ids...)
+					ops = append(ops, L(I(4), I(g.id), L(sxs...)))
+				}
+				s1 := mkSub(g, 1)
+				s2 := mkSub(g, 1)
+				addRoute(s1.id)
+				addRoute(s2.id)
+				addRoute(s1.id)
+				dist["sibling_subgroups_after_use_burst"]++
 			case r == 8:
 				host := []string{"api.example.com", "admin.example.com"}[rng.Intn(2)]
 				if hostUsed[host] {
